@@ -27,71 +27,77 @@ def _closure_hash():
 
 
 def prove(c):
-    """Like vlib.check_theorems, but (a) `make` is restricted to the closure of Properties/C20.vo, so
-    that a file of another component cannot break this check, and (b) in the quick tier the
-    theorem/axiom listing is cached: Print Assumptions through Coq-Interval's closure costs ~12 s
-    per theorem and depends only on the .v sources (never on /repo).  `make` always verifies that
-    every .vo of the closure is up to date (= the proofs were checked by coqc); the listing of the
-    last coqc run on Properties/C20.v is reused only when the sources + coqc version hash to the
-    same value.  Thorough tier or VERIF_NO_CACHE=1: always a fresh coqc run."""
-    import vlib
+    """Check.prove() of vlib, plus a cache of the theorem/axiom listing in the quick tier: Print Assumptions
+    through Coq-Interval's closure costs ~12 s per theorem and depends only on the .v sources (never on
+    /repo).  On a cache hit `make Properties/C20.vo` still verifies that every .vo of the closure is up
+    to date (= the proofs were checked by coqc) and the forbidden-declaration scan still runs; the
+    listing of the last coqc run on Properties/C20.v is reused only when the sources + coqc version hash
+    to the same value.  Thorough tier or VERIF_NO_CACHE=1: always the fresh coqc run of Check.prove()."""
     cache = os.path.join(OUT, 'cache', 'C20_assumptions.json')
     use_cache = c.tier == 'quick' and not os.environ.get('VERIF_NO_CACHE')
     src = open(os.path.join(COQ, 'Properties/C20.v')).read()
     names = re.findall(r'^\s*(?:Theorem|Lemma|Corollary|Example)\s+(\w+)', src, re.M)
-    try:
-        coq_make(['Properties/C20.vo'])
-        bad = sh(r"grep -nE '\b(Admitted|admit|Axiom|Parameter|Conjecture|Unset Guard|bypass_check|Admit Obligations)\b' "
-                 r"Base/Arith.v Base/RInst.v Num/Climate.v Num/ClimateProofs.v Properties/C20.v || true", cwd=COQ)
-        bad = '\n'.join(l for l in bad.split('\n') if l and not re.search(r'\(\*.*(Axiom|Parameter|admit).*\*\)', l))
-        if bad.strip():
-            raise BuildError('forbidden declaration in development', bad)
-        key = _closure_hash()
-        if use_cache and os.path.exists(cache):
-            try:
-                d = json.load(open(cache))
-            except ValueError:
-                d = {}
-            if d.get('hash') == key and d.get('names') == names:
-                c.thm_names, c.axioms = names, d['axioms']
-                c.cov['assumption_listing'] = ('reused from the last coqc run on identical sources (content hash); '
-                                               '.vo files verified up to date by make')
-                return
-        with vlib._Lock():
-            out = sh('timeout 1500 coqc -Q . OW Properties/C20.v', cwd=COQ)
-        axioms = set()
-        nblocks = 0
-        for blk in re.split(r'\n(?=Closed under the global context|Axioms:)', '\n' + out):
-            if blk.startswith('Closed under'):
-                nblocks += 1
-            elif blk.startswith('Axioms:'):
-                nblocks += 1
-                for m in re.finditer(r"^([A-Za-z_][\w.']*)\s*:", blk, re.M):
-                    if m.group(1) != 'Axioms':
-                        axioms.add(m.group(1))
-        if nblocks != len(names):
-            raise BuildError('Properties/C20.v: %d theorems but %d Print Assumptions blocks' % (len(names), nblocks), out[-2000:])
-        c.thm_names, c.axioms = names, sorted(axioms)
+    key = _closure_hash()
+    d = {}
+    if use_cache and os.path.exists(cache):
+        try:
+            d = json.load(open(cache))
+        except ValueError:
+            d = {}
+    if d.get('hash') == key and d.get('names') == names:
+        try:
+            coq_make(['Properties/C20.vo'])
+            bad = forbidden_scan()
+            if bad:
+                raise BuildError('forbidden declaration in development', '\n'.join(bad))
+            c.thm_names, c.axioms = names, d['axioms']
+            c.cov['assumption_listing'] = ('reused from the last coqc run on identical sources (content hash); '
+                                           '.vo files verified up to date by make')
+        except BuildError as e:
+            c.proof_broken = (e.what, e.output[-3000:])
+            c.thm_names = names
+            log('PROOF BROKEN:', e.what)
+            log(e.output[-1500:])
+        return
+    c.prove()
+    if not c.proof_broken:
         c.cov['assumption_listing'] = 'fresh coqc run on Properties/C20.v'
         os.makedirs(os.path.dirname(cache), exist_ok=True)
-        json.dump({'hash': key, 'names': names, 'axioms': c.axioms}, open(cache, 'w'))
-    except BuildError as e:
-        c.proof_broken = (e.what, e.output[-3000:])
-        c.thm_names = names
-        log('PROOF BROKEN:', e.what)
-        log(e.output[-1500:])
+        json.dump({'hash': key, 'names': c.thm_names, 'axioms': c.axioms}, open(cache, 'w'))
 
 
 # ---------------------------------------------------------------- generators
-def grid_points(quick):
+def grid_temps(quick):
     step = 2.5 if quick else 0.25
     n = int(round(95 / step))
-    ts = set(-40 + step * k for k in range(n + 1))
-    ts |= {-40.0, -39.99, -0.1, -1e-3, -1e-6, -1e-9, 0.0, 1e-9, 1e-6, 1e-3, 0.01, 0.1, 1.0, 44.19, 54.99, 55.0}
+    ts = [-40 + step * k for k in range(n + 1)]
+    ts += [-40.0, -39.99, -0.1, -1e-3, -1e-6, -1e-9, -0.0, 0.0, 1e-9, 1e-6, 1e-3, 0.01, 0.1, 1.0, 44.19, 54.99, 55.0]
+    seen, res = set(), []
+    for t in sorted(ts, key=lambda x: (x, math.copysign(1, x))):     # -0.0 before 0.0, distinct by bit pattern
+        if f2h(t) not in seen:
+            seen.add(f2h(t))
+            res.append(t)
+    return res
+
+
+def grid_hums(quick):
     hs = [1e-4, 1e-2, 1.0, 10.0, 25.0, 50.0, 75.0, 90.0, 99.0, 99.5, 100.0]
     if not quick:
         hs = sorted(set(hs + [1e-3, 0.1, 5.0, 40.0, 60.0, 95.0, 98.0, 99.9, 99.99, 99.999]))
-    return [(t, h) for t in sorted(ts) for h in hs]
+    return hs
+
+
+def grid_points(quick):
+    return [(t, h) for t in grid_temps(quick) for h in grid_hums(quick)]
+
+
+def head_series(ts, hs, i):
+    """a short series whose FIRST element is grid temperature ts[i]: repeated consecutive temperature, the same
+    temperature at different humidities, a different temperature and back, 0.0 / -0.0 in the middle"""
+    t = ts[i]
+    t2 = ts[(i * 7 + 3) % len(ts)]
+    ha, hb, hc = hs[i % len(hs)], hs[(i + 4) % len(hs)], hs[(i + 7) % len(hs)]
+    return [(t, ha), (t, ha), (t, hb), (t2, hc), (t2, hc), (t, hb), (0.0, ha), (0.0, hb), (-0.0, ha), (t, 100.0), (t2, 100.0), (t, ha)]
 
 
 def random_points(rng, ncols):
@@ -132,7 +138,9 @@ def oracle(c, ci, e, pts, outs, line, stats):
         obj = {'kind': kind, 'elevation': e,
                'points': [{'dryBulb': pts[k][0], 'humidity': pts[k][1], 'vaporPressure': vp[k], 'dewPoint': dew[k],
                            'wetBulb': wet[k], 'deltaT': dlt[k]} for k in idxs],
-               'replay_case_line': kcase(MODEL, [e], [], [[pts[k][0] for k in idxs], [pts[k][1] for k in idxs]])}
+               'indices_in_series': list(idxs),
+               # the series up to the last point involved: state carried inside the loop is visible only through the position
+               'replay_case_line': kcase(MODEL, [e], [], [[q[0] for q in pts[:max(idxs) + 1]], [q[1] for q in pts[:max(idxs) + 1]]])}
         if extra:
             obj.update(extra)
         c.violation('oracle_%d_%s.json' % (ci, kind), obj)
@@ -205,9 +213,32 @@ class _Collect:
         return True
 
 
+def in_range(e, t, h):
+    return -40 <= t <= 55 and 0 < h <= 100 and 0 <= e <= 10000
+
+
+def same_bits(a, b):
+    return all((x != x and y != y) or f2h(x) == f2h(y) for x, y in zip(a, b))
+
+
+def new_stats():
+    return {'sat_overshoot': 0, 'sat_overshoot_max': 0.0, 'negative_depression': 0, 'neg_example': None,
+            'svp_pairs': 0, 'dew_pairs': 0}
+
+
+def history_violation(c, name, e, pts, k, got, alone):
+    c.violation(name, {'kind': 'step-output-depends-on-position-or-history', 'elevation': e, 'index_in_series': k,
+                       'dryBulb': pts[k][0], 'humidity': pts[k][1],
+                       'outputs_in_series[vp,dew,wet,deltaT]': list(got), 'outputs_as_single_step_run': list(alone),
+                       'series_prefix': [list(q) for q in pts[:k + 1]],
+                       'replay_case_line': kcase(MODEL, [e], [], [[q[0] for q in pts[:k + 1]], [q[1] for q in pts[:k + 1]]]),
+                       'single_step_case_line': kcase(MODEL, [e], [], [[pts[k][0]], [pts[k][1]]])})
+
+
 def replay(path):
-    """python3 tools/c20.py --replay out/C20/<file>.json : re-run the recorded point(s) on the
-    implementation (rebuilt from /repo) and on the model, compare, re-evaluate the oracle."""
+    """python3 tools/c20.py --replay out/C20/<file>.json : re-run the recorded series on the implementation
+    (rebuilt from /repo) and on the model, compare, re-evaluate the oracle on every step, and compare every
+    step with the same inputs run as a series of their own."""
     obj = json.load(open(path))
     line = obj.get('replay_case_line')
     if not line and obj.get('mismatches'):
@@ -218,15 +249,16 @@ def replay(path):
         sys.exit(1)
     build_driver(['c20'])
     build_harness(['owrun'])
-    li = run_impl([line])[0]
-    lm = run_model([line])[0]
-    print('case :', line)
-    print('impl :', li)
-    print('model:', lm)
     t = line.split()
     e = h2f(t[4])
     n = int(t[9])
     pts = list(zip([h2f(x) for x in t[10:10 + n]], [h2f(x) for x in t[10 + n:10 + 2 * n]]))
+    singles = [kcase(MODEL, [e], [], [[a], [b]]) for a, b in pts]
+    res = run_impl([line] + singles)
+    li, lm = res[0], run_model([line])[0]
+    print('case :', line)
+    print('impl :', li)
+    print('model:', lm)
     ri, rm = parse_kresult(li), parse_kresult(lm)
     print('elevation %r points %r' % (e, pts))
     if ri[0] == 'OK':
@@ -235,15 +267,20 @@ def replay(path):
     if diff:
         print('model and implementation differ:', diff)
     col = _Collect()
-    inrange = all(-40 <= a <= 55 and 0 < b <= 100 for a, b in pts) and 0 <= e <= 10000
-    if ri[0] == 'OK' and inrange:
-        stats = {'sat_overshoot': 0, 'sat_overshoot_max': 0.0, 'negative_depression': 0, 'neg_example': None,
-                 'svp_pairs': 0, 'dew_pairs': 0}
-        oracle(col, 0, e, pts, ri[1], line, stats)
-    elif inrange:
+    ok_range = all(in_range(e, a, b) for a, b in pts)
+    if ri[0] == 'OK':
+        if ok_range:
+            oracle(col, 0, e, pts, ri[1], line, new_stats())
+        for k in range(n):
+            r1 = parse_kresult(res[1 + k])
+            got = [ri[1][j][k] for j in range(4)]
+            alone = [r1[1][j][0] for j in range(4)] if r1[0] == 'OK' else None
+            if alone is None or not same_bits(got, alone):
+                history_violation(col, 'h', e, pts, k, got, alone or [])
+    elif ok_range:
         col.found.append({'kind': 'no-result-on-in-range-input'})
     for f in col.found:
-        print('oracle failure:', f['kind'])
+        print('oracle failure:', f['kind'], json.dumps({k: v for k, v in f.items() if k in ('points', 'index_in_series', 'outputs_in_series[vp,dew,wet,deltaT]', 'outputs_as_single_step_run')})[:600])
     sys.exit(1 if (col.found or diff) else 0)
 
 
@@ -257,53 +294,106 @@ def main():
     build_harness(['owrun'])
     prove(c)
     rng = c.rng
-    # ---- in-range cases: (elevation, points)
-    cases = []
+    # ---- in-range runs: (kind, elevation, series of (T, RH))
+    runs = []
+    ts, hs = grid_temps(quick), grid_hums(quick)
     gp = grid_points(quick)
     elevs = [0.0, 500.0, 1500.0, 5000.0, 10000.0] if quick else \
         [0.0, 1.0, 100.0, 500.0, 1000.0, 1500.0, 2500.0, 4000.0, 5000.0, 7500.0, 9999.0, 10000.0]
+    single_elevs = elevs if quick else [0.0, 1500.0, 10000.0]
     for e in elevs:
-        cases.append(('grid', e, gp))
-    for _ in range(10 if quick else 300):
+        runs.append(('grid', e, gp))
+    # every grid temperature as the FIRST element of a short series with repeated / revisited temperatures
+    for i in range(len(ts)):
+        for e in (single_elevs if quick else single_elevs[:2]):
+            runs.append(('head', e, head_series(ts, hs, i)))
+    # the grid series rotated so that every grid temperature block also opens a long series (one elevation)
+    for i in range(0, len(ts), 1 if quick else 8):
+        j = i * len(hs)
+        runs.append(('grid-rotated', single_elevs[i % len(single_elevs)], (gp[j:] + gp[:j])[:4 * len(hs)]))
+    nrand = 10 if quick else 300
+    nrand_single = nrand if quick else 40
+    rand_runs = []
+    for _ in range(nrand):
         e = rng.choice([rng.uniform(0, 10000), rng.uniform(0, 10000), float(rng.randint(0, 10000)), 0.0, 10000.0])
-        cases.append(('random', e, random_points(rng, 60 if quick else 120)))
+        rand_runs.append(('random', e, random_points(rng, 60 if quick else 120)))
+    runs += rand_runs
+    # every point of the series above ALSO as a run of its own (length 1): first-step behaviour, and the
+    # reference for the metamorphic check "step k depends only on the inputs of step k"
+    single_keys = {}
+    def add_single(e, t, h):
+        k = (f2h(e), f2h(t), f2h(h))
+        if k not in single_keys:
+            single_keys[k] = len(runs)
+            runs.append(('single', e, [(t, h)]))
+    for e in single_elevs:
+        for (t, h) in gp:
+            add_single(e, t, h)
+        for (t, h) in [q for i in range(len(ts)) for q in head_series(ts, hs, i)]:
+            add_single(e, t, h)
+    for (_, e, pts) in rand_runs[:nrand_single]:
+        for (t, h) in pts:
+            add_single(e, t, h)
     # ---- out-of-range / malformed stream: compared model-vs-code only (NaN, floor-humidity and guard branches)
     nan, inf = float('nan'), float('inf')
     odd_pts = [(20.0, 0.0), (20.0, -5.0), (-10.0, 0.0), (20.0, nan), (nan, 50.0), (-273.16, 50.0), (-300.0, 50.0),
                (-273.15, 50.0), (-100.0, 50.0), (100.0, 50.0), (374.0, 100.0), (1000.0, 50.0), (20.0, 150.0), (20.0, 1e6),
                (inf, 50.0), (-inf, 50.0), (20.0, inf), (20.0, -inf), (-0.0, 50.0), (0.0, 100.0), (60.0, 100.0), (99.0, 100.0)]
-    odd_cases = [('odd', e, odd_pts) for e in (0.0, 10000.0, 20000.0, 45076.0, 45077.0, 50000.0, -500.0, nan, inf)]
-    odd_cases.append(('odd', 0.0, []))
-    allc = cases + odd_cases
-    lines = [kcase(MODEL, [e], [], [[p[0] for p in pts], [p[1] for p in pts]]) for (_, e, pts) in allc]
+    odd_runs = [('odd', e, odd_pts) for e in (0.0, 10000.0, 20000.0, 45076.0, 45077.0, 50000.0, -500.0, nan, inf)]
+    odd_runs += [('odd', 0.0, [q]) for q in odd_pts]            # each odd point also first / alone
+    odd_runs.append(('odd', 0.0, []))
+    for i, (_, e, pts) in enumerate(odd_runs):
+        if len(pts) == 1:
+            single_keys.setdefault((f2h(e), f2h(pts[0][0]), f2h(pts[0][1])), len(runs) + i)
+    allc = runs + odd_runs
+    lines = [kcase(MODEL, [e], [], [[q[0] for q in pts], [q[1] for q in pts]]) for (_, e, pts) in allc]
     impl = run_impl(lines)
     model = run_model(lines)
-    stats = {'sat_overshoot': 0, 'sat_overshoot_max': 0.0, 'negative_depression': 0, 'neg_example': None,
-             'svp_pairs': 0, 'dew_pairs': 0}
+    parsed = [parse_kresult(l) for l in impl]
+    stats = new_stats()
     branch = {'temperature_above_zero': 0, 'temperature_at_or_below_zero': 0, 'bisection_moved': 0,
               'bisection_stayed_at_dew': 0, 'humidity_floor_branch(model-vs-code only)': 0,
               'nan_dew_branch(model-vs-code only)': 0}
+    kinds = {}
+    first_step_temps = set()
     max_rel = 0.0
     npoints = 0
-    for ci, ((kind, e, pts), li, lm) in enumerate(zip(allc, impl, model)):
-        ri, rm = parse_kresult(li), parse_kresult(lm)
+    meta_checked = 0
+    # shortest series first, so that the first recorded failing case is the smallest one
+    for ci in sorted(range(len(allc)), key=lambda i: len(allc[i][2])):
+        (kind, e, pts), li, lm = allc[ci], impl[ci], model[ci]
+        ri, rm = parsed[ci], parse_kresult(lm)
+        kinds[kind] = kinds.get(kind, 0) + 1
         diff = kresults_agree(ri, rm, RTOL, ATOL)
         if diff:
-            # name the point so the mismatch can be replayed on its own
             m = re.search(r't=(\d+)', diff)
             k = int(m.group(1)) if m else 0
-            one = kcase(MODEL, [e], [], [[pts[k][0]], [pts[k][1]]]) if pts else lines[ci]
-            c.corr_broken.append({'kind': kind, 'elevation': e, 'diff': diff,
+            # the series up to the differing step (position matters when state is carried inside the loop)
+            one = kcase(MODEL, [e], [], [[q[0] for q in pts[:k + 1]], [q[1] for q in pts[:k + 1]]]) if pts else lines[ci]
+            c.corr_broken.append({'kind': kind, 'elevation': e, 'diff': diff, 'index_in_series': k,
                                   'point': list(pts[k]) if pts else None, 'replay_case_line': one})
         if ri[0] == 'OK' and rm[0] == 'OK':
             for a, b in zip(ri[1], rm[1]):
                 for x, y in zip(a, b):
                     if math.isfinite(x) and math.isfinite(y) and x != y and max(abs(x), abs(y)) > 1e-3:
                         max_rel = max(max_rel, abs(x - y) / max(abs(x), abs(y)))
+        # metamorphic: the outputs of step k depend only on (elevation, dryBulb[k], humidity[k]) -- bit-exact
+        # against the same point run as a series of its own (also C14's causality, restricted to this model)
+        if ri[0] == 'OK' and len(pts) > 1:
+            for k, (t, h) in enumerate(pts):
+                si = single_keys.get((f2h(e), f2h(t), f2h(h)))
+                if si is None or parsed[si][0] != 'OK':
+                    continue
+                meta_checked += 1
+                got = [ri[1][j][k] for j in range(4)]
+                alone = [parsed[si][1][j][0] for j in range(4)]
+                if not same_bits(got, alone):
+                    history_violation(c, 'history_%d_%d.json' % (ci, k), e, pts, k, got, alone)
+                    break
         if kind == 'odd':
             if ri[0] == 'OK':
                 for k, (t, h) in enumerate(pts):
-                    c.count(('odd', e, t, h), nontrivial=False)
+                    c.count(('odd', f2h(e), f2h(t), f2h(h)), nontrivial=False)
                     if h <= 0:
                         branch['humidity_floor_branch(model-vs-code only)'] += 1
                     if ri[1][1][k] != ri[1][1][k]:
@@ -315,16 +405,18 @@ def main():
             continue
         outs = ri[1]
         oracle(c, ci, e, pts, outs, lines[ci], stats)
+        if pts:
+            first_step_temps.add(f2h(pts[0][0]))
         for k, (t, h) in enumerate(pts):
             npoints += 1
             moved = outs[2][k] != outs[1][k]
-            c.count((e, t, h), nontrivial=moved)
+            c.count((f2h(e), f2h(t), f2h(h)), nontrivial=moved)
             branch['temperature_above_zero' if t > 0 else 'temperature_at_or_below_zero'] += 1
             branch['bisection_moved' if moved else 'bisection_stayed_at_dew'] += 1
-        if pts:
+        if pts and (kind != 'single' or ci % 997 == 0):
             k = (ci * 37) % len(pts)
-            c.sample({'elevation': e, 'dryBulb': pts[k][0], 'humidity': pts[k][1],
-                      'impl_outputs[vp,dew,wet,deltaT]': [outs[j][k] for j in range(4)],
+            c.sample({'kind': kind, 'series_length': len(pts), 'index_in_series': k, 'elevation': e, 'dryBulb': pts[k][0],
+                      'humidity': pts[k][1], 'impl_outputs[vp,dew,wet,deltaT]': [outs[j][k] for j in range(4)],
                       'model_outputs': [rm[1][j][k] for j in range(4)] if rm[0] == 'OK' else lm[:40]})
     # ---- observation (not a clause of the statement as given): ordered reading at saturation
     if stats['negative_depression'] and any(k['key'] == KEY_SAT for k in c.known):
@@ -332,24 +424,28 @@ def main():
     if stats['neg_example']:
         log('observation: dew point above dry bulb at %d points (max excess %.6f C); negative depression at %d points, e.g. %s' %
             (stats['sat_overshoot'], stats['sat_overshoot_max'], stats['negative_depression'], json.dumps(stats['neg_example'])))
-    c.cov['rule'] = ('one evaluation = one (elevation, dryBulb, humidity) point run through sim.Catalog["ClimateVariables"] (series packed per '
-                     'elevation) and through the extracted Coq model, outputs compared to rtol 1e-9 / atol 1e-12 (libm), and the C20 oracle '
-                     '(finite, svp>0, svp strictly increasing over neighbouring temperatures, min(dew,dry)<=wet<=max(dew,dry), deltaT==dry-wet '
-                     'bit-exact, dew strictly increasing over neighbouring humidities, dew<=dry for RH<=99; all comparisons exact, strictness required for '
-                     'pairs at least 1e-9 apart, which includes every grid pair) evaluated on the implementation\'s '
-                     'outputs; grid: T in [-40,55] step %s plus both sides of 0 C (1e-9..0.1), RH in {1e-4,..,99,99.5,100}, elevations %s; random '
-                     'columns (T, 3 humidities) incl. RH within 1e-6 of 100; non-trivial = the bisection accepted at least one midpoint '
-                     '(wetBulb != dewPoint), distinct by (elevation,T,RH); out-of-range stream (RH<=0, NaN/Inf, T<=-273.16, elevation>45077 m, '
-                     'empty series) compared model-vs-code only' % ('2.5' if quick else '0.25', elevs))
-    c.finish(extra_cov={'in_range_points': npoints, 'cases(series)': len(allc), 'branch_hits': branch,
+    c.cov['rule'] = ('one evaluation = one (elevation, dryBulb, humidity) step run through sim.Catalog["ClimateVariables"] and through the '
+                     'extracted Coq model, outputs compared to rtol 1e-9 / atol 1e-12 (libm), and the C20 oracle (finite, svp>0, svp strictly '
+                     'increasing over neighbouring temperatures, min(dew,dry)<=wet<=max(dew,dry), deltaT==dry-wet bit-exact, dew strictly '
+                     'increasing over neighbouring humidities, dew<=dry for RH<=99; all comparisons exact, strictness required for pairs at '
+                     'least 1e-9 apart, which includes every grid pair) evaluated on the implementation\'s outputs. Series shapes: the whole '
+                     'grid as one series per elevation (T in [-40,55] step %s plus both sides of 0 C (1e-9..0.1), 0.0 and -0.0, RH in '
+                     '{1e-4,..,99,99.5,100}, elevations %s); every grid temperature as the FIRST step of a short series with repeated '
+                     'consecutive temperatures, the same temperature at different humidities and revisits; rotations of the grid series; '
+                     'random columns (T, 3 humidities) incl. RH within 1e-6 of 100; and every one of these points also as a length-1 run. '
+                     'Metamorphic check: each step of each multi-step series is bit-identical to the same inputs run alone. non-trivial = '
+                     'the bisection accepted at least one midpoint (wetBulb != dewPoint), distinct by (elevation,T,RH) bit patterns; '
+                     'out-of-range stream (RH<=0, NaN/Inf, T<=-273.16, elevation>45077 m, empty series; as series and alone) compared '
+                     'model-vs-code only' % ('2.5' if quick else '0.25', elevs))
+    c.finish(extra_cov={'in_range_steps': npoints, 'runs_by_kind': kinds, 'branch_hits': branch,
+                        'distinct_first_step_temperatures': len(first_step_temps),
+                        'metamorphic_steps_compared_with_single_step_run': meta_checked,
                         'svp_monotonicity_pairs': stats['svp_pairs'], 'dew_monotonicity_pairs': stats['dew_pairs'],
                         'max_relative_model_vs_code_difference': max_rel,
                         'observation_ordered_reading_at_saturation': {
                             'points_with_dew_above_dry': stats['sat_overshoot'], 'max_dew_minus_dry_C': stats['sat_overshoot_max'],
                             'points_with_negative_depression': stats['negative_depression'], 'worst': stats['neg_example'],
                             'coq': 'C20_ordered_at_saturation_refuted'},
-                        'checker_cmd': 'cd /verif/coq && make -j16 Properties/C20.vo && coqc -Q . OW Properties/C20.v   '
-                                       '(closure of Properties/C20.vo: Base/Arith Base/RInst Num/Climate Num/ClimateProofs)',
                         'exhaustive': False},
              assumptions=['theorems are over the real-number instance of the model (no round-off bound); the float instance of the same Gallina text '
                           'is what is compared with the Go code',
